@@ -265,9 +265,10 @@ class EnumMember:
 class SymEnum:
     """A symbolic member of an enum class: z3 Int ordinal in [0, n)."""
 
-    def __init__(self, cls, ordv):
+    def __init__(self, cls, ordv, np_str=False):
         self.cls = cls
         self.ord = ordv
+        self.np_str = np_str     # a numpy.str_ holding the member's value (what numpy stores for StrEnum members)
 
     def __repr__(self):
         return f'<sym {self.cls.name} {self.ord}>'
